@@ -309,6 +309,25 @@ def main():
                 r = {"input": args, "verdict": "harness_error", "error": traceback.format_exc()[-600:]}
             r["key"] = item["key"]
             res.append(r)
+    # property-specific bounded checks written in the sidecar (histories, repeated calls): each returns a list of
+    # violation descriptions ({"clause":..., "input":...}); they are labelled bounded in the evidence
+    for (m, fname) in job.get("custom", []):
+        mod = importlib.import_module("contracts." + m)
+        try:
+            signal.alarm(int(job.get("custom_timeout", 300)))
+            try:
+                out = getattr(mod, fname)(random.Random(job.get("seed", 0)), job.get("tier", "quick"))
+            finally:
+                signal.alarm(0)
+            for v in out.get("violations", []):
+                v.update(verdict="violation", key="custom:%s.%s" % (m, fname), custom=[m, fname])
+                res.append(v)
+            res.append({"verdict": "custom_ok", "key": "custom:%s.%s" % (m, fname), "cases": out.get("cases", 0),
+                        "bound": out.get("bound", ""), "nviol": len(out.get("violations", []))})
+        except _Timeout:
+            res.append({"verdict": "timeout", "key": "custom:%s.%s" % (m, fname)})
+        except Exception:
+            res.append({"verdict": "harness_error", "key": "custom:%s.%s" % (m, fname), "error": traceback.format_exc()[-800:]})
     json.dump(res, sys.stdout)
 
 
